@@ -41,7 +41,9 @@ def gen_exact_cases(rng, n_cases, big):
     for k in range(n_cases):
         m = doubles.random_model(rng)
         n = int(rng.choice([1, 2, 3, 17, 100, 1000] + ([20000] if big else [])))
-        yield {"part": "A", "model": m.describe(), "n": n, "seed": int(rng.integers(0, 2**31)),
+        # boundary seeds (0 is falsy in Python, 2**32-1 the largest legacy seed) are drawn on purpose
+        seed = int(rng.choice([0, 0, 1, 2**32 - 1])) if k % 4 == 0 else int(rng.integers(0, 2**31))
+        yield {"part": "A", "model": m.describe(), "n": n, "seed": seed,
                "rs": str(rng.choice(["int", "generator"]))}
 
 
@@ -226,7 +228,7 @@ def process_univariate(ck, rng, n):
 def process_joint_stat(ck, rng, n):
     m = models.random_fam_model(rng, n_dim=int(rng.choice([2, 3])))
     model = m.build()
-    seed = int(rng.integers(0, 2**31))
+    seed = 0 if rng.integers(0, 3) == 0 else int(rng.integers(0, 2**31))
     case = {"part": "C", "model": m.describe(), "n": n, "seed": seed}
     ck.case(case, nontrivial=m.n_dependent() >= 1, sample=False)
     ck.count("part=C-joint")
